@@ -94,6 +94,7 @@ const (
 	opMRange
 	opMNewValueSet
 	opMIsValid
+	opTransplant // Set(fd, <message h2>.Get(fd)): the value of the same field of another message of the same type
 )
 
 type op struct {
@@ -111,7 +112,7 @@ type op struct {
 func (o op) String() string {
 	names := []string{"Has", "Get", "Set", "SetNewMessage", "Clear", "Mutable", "NewField", "SetDetached", "WhichOneof", "Range", "GetUnknown", "SetUnknown", "IsValid", "Mutable(scalar)", "Has(foreign-fd)",
 		"List.Len", "List.Get", "List.Set", "List.Append", "List.AppendMutable", "List.Truncate", "List.NewElement+Append", "List.IsValid",
-		"Map.Len", "Map.Has", "Map.Get", "Map.Set", "Map.Clear", "Map.Mutable", "Map.Range", "Map.NewValue+Set", "Map.IsValid"}
+		"Map.Len", "Map.Has", "Map.Get", "Map.Set", "Map.Clear", "Map.Mutable", "Map.Range", "Map.NewValue+Set", "Map.IsValid", "SetFromOtherMessage"}
 	s := fmt.Sprintf("h%d.%s", o.h, names[o.code])
 	if o.fd != nil {
 		s += "(" + string(o.fd.Name()) + ")"
@@ -128,7 +129,7 @@ func (o op) String() string {
 		s += fmt.Sprintf(" i=%d", o.idx)
 	case opMHas, opMGet, opMSet, opMClear, opMMutable, opMNewValueSet:
 		s += fmt.Sprintf(" k=%x/%q", o.key.U, o.key.B)
-	case opSetDetached:
+	case opSetDetached, opTransplant:
 		s += fmt.Sprintf(" <-h%d", o.h2)
 	case opSetUnknown:
 		s += fmt.Sprintf(" %x", o.raw)
@@ -258,6 +259,10 @@ func exec(w *world, o op) (r execResult) {
 			default:
 				hv.m.Set(fd, protoreflect.ValueOfMessage(d.m))
 			}
+		case opTransplant:
+			fd := localFD(hv.m, o.fd)
+			src := w.h[o.h2].m
+			hv.m.Set(fd, src.Get(localFD(src, o.fd)))
 		case opWhichOneof:
 			od := hv.m.Descriptor().Oneofs().ByName(o.od.Name())
 			f := hv.m.WhichOneof(od)
@@ -668,6 +673,36 @@ func (c *rdCase) dynLen(h int) int {
 	return n
 }
 
+// dynFieldLen: number of elements / entries of a list or map field of message handle h (dynamicpb world).
+func (c *rdCase) dynFieldLen(h int, fd FD) int {
+	n := 0
+	safely(func() {
+		m := c.worlds[2].h[h].m
+		v := m.Get(localFD(m, fd))
+		if fd.IsMap() {
+			n = v.Map().Len()
+		} else {
+			n = v.List().Len()
+		}
+	})
+	return n
+}
+
+// related reports whether one handle is an ancestor of the other (storing a message's own container inside
+// itself or its descendants would build cycles).
+func (c *rdCase) related(a, b int) bool {
+	up := func(x, y int) bool {
+		for x > 0 {
+			if x == y {
+				return true
+			}
+			x = c.info[x].parent
+		}
+		return x == y
+	}
+	return up(a, b) || up(b, a)
+}
+
 func (c *rdCase) randomStep() {
 	r := c.r
 	kind := hMsg
@@ -779,6 +814,15 @@ func (c *rdCase) msgStep(h int, hi hinfo) {
 		}
 		c.step(op{code: opClear, h: h, fd: fd}, nil)
 		if write {
+			// a list view obtained earlier stays a valid value when the field is cleared (what it then holds differs
+			// between the references, and for map views they differ on validity too: only list validity is compared
+			// before the handle is dropped)
+			for i := range c.info {
+				x := c.info[i]
+				if x.alive && !x.readonly && !x.detached && x.parent == h && x.via == fd.Number() && x.elem == "" && x.kind == hList {
+					c.step(op{code: opLIsValid, h: i, fd: fd}, nil)
+				}
+			}
 			c.afterFieldWrite(h, fd)
 		}
 	case x < 17:
